@@ -47,6 +47,11 @@ def run(ctx):
             stride = 16 if scenario == "gen" else 4
             for off in range(stride):
                 shared.append(f"prop.c20shared {cname} {scenario} {aop} {k1} {k2} {stride} {off}")
+    # the twisted-Edwards generators have their own table construction: a sample of its preemption points
+    for cname in ("Ed25519", "Ed448"):
+        stride = 257 if ctx.quick else 31
+        for off in (rng.sample(range(stride), 6) if ctx.quick else range(stride)):
+            shared.append(f"prop.c20edw {cname} {rng.randrange(3, 2 ** 200)} {rng.randrange(3, 2 ** 200)} {stride} {off}")
     res = ctx.check_props(shared, "prop.c20shared")
     pts = sum(int(r.split()[1]) for r in res if r.startswith("ok "))
     ctx.count("shared-object preemption points", pts)
